@@ -44,7 +44,7 @@ TRUSTED = ["scipy.optimize.isotonic_regression, np.quantile, np.interp (scipy in
 EXPECT_COUNTS = ["known_corpus", "dtype_corpus", "pav_sequences", "functional:mean", "functional:quantile", "functional:solver:", "weighted", "unweighted",
                  "with_nan", "fit:ok", "dtype:fcst:int", "dtype:fcst:uint", "dtype:fcst:float32", "dtype:obs:uint", "dtype:weight:uint", "inf:fcst",
                  "inf:obs:max-min", "inf:obs:quantile", "inf:obs:mean-one-sided", "inf:weight", "relation:inf-standin", "relation:nan-deleted",
-                 "relation:permuted", "oracle_fit_cases", "xarray", "xarray:typed", "xarray:inf-fcst", "bootstrap", "bootstrap:inf-fcst", "nanquantile",
+                 "relation:permuted", "oracle_fit_cases", "xarray", "xarray:typed", "xarray:inf-fcst", "bootstrap", "bootstrap:inf-fcst", "nanquantile", "nanquantile:infinite-values",
                  "malformed:", "malformed:dtype:"]
 
 NAN = float("nan")
@@ -166,8 +166,9 @@ def kwargs(functional, solver, q, w):
 # object are refused (malformed stream).
 UNSIGNED = ("uint8", "uint16", "uint32", "uint64")
 DTYPES = ["int64", "int32", "int16", "float32", "float64", "uint8", "uint16", "uint32", "uint64"]
-# the top of each unsigned type's range (a cast to the signed type of the same width, or `-x`, wraps there); 2**52 for uint64: exact in binary64
-UTOP = {"uint8": 255, "uint16": 65535, "uint32": 4294967295, "uint64": 2 ** 52}
+# the top of each unsigned type's range (a cast to the signed type of the same width, or `-x`, wraps there); 2**40 for uint64: the
+# values AND every weighted sum of up to 14 of them (weights <= 4) stay below 2**53, i.e. exact in binary64
+UTOP = {"uint8": 255, "uint16": 65535, "uint32": 4294967295, "uint64": 2 ** 40}
 
 
 def typed_offset(rng, dtype, span):
@@ -341,7 +342,7 @@ def inject_inf(ctx, rng, f, o, w, functional, solver, q, p_fcst=0.22, obs=True):
                 ctx.count("inf:obs:quantile:undefined-by-np.quantile(left finite)")
         else:
             ctx.count("inf:obs:max-min")
-    if obs and functional == "mean" and rng.random() < 0.12:
+    if obs and functional == "mean" and rng.random() < 0.3:
         sign = rng.choice([INF, -INF])
         for k in rng.sample(range(n), min(n, rng.randint(1, 2))):
             o[k] = sign
@@ -447,7 +448,9 @@ def block_check(ctx, res, f, o, w, functional, solver, q, case):
                           dict(case, block_forecasts=uf[i:j + 1].tolist(), block_obs=oa[sel].tolist()), expect, float(vals[i]))
         i = j + 1
     if functional == "mean" and len(oa):
-        if vals.min() < oa.min() - 1e-9 or vals.max() > oa.max() + 1e-9:
+        fin = np.abs(oa[np.isfinite(oa)])
+        tol = 1e-9 * max(1.0, float(fin.max()) if len(fin) else 1.0)                 # relative to the magnitude of the observations
+        if vals.min() < oa.min() - tol or vals.max() > oa.max() + tol:
             ctx.violation("mean fit leaves [min obs, max obs]", case, [float(oa.min()), float(oa.max())], vals.tolist())
         ww = np.ones_like(oa) if wa is None else wa
         per_pair = np.array([vals[list(uf).index(x)] for x in fa])
@@ -789,6 +792,46 @@ def check_boot(ctx, M, i, f, o, w, functional, solver, q, B, conf, mnn, seed):
     again = M.isotonic_fit(np.array(f), np.array(o), **kw)
     if not (np.array_equal(again["confidence_band_lower_values"], lo_i, equal_nan=True) and np.array_equal(again["confidence_band_upper_values"], up_i, equal_nan=True)):
         ctx.violation("bootstrap bands are not reproducible for a fixed numpy seed", case, lo_i.tolist(), again["confidence_band_lower_values"].tolist())
+
+
+FINDING_NQ = "nanquantile-infinite-values"
+
+
+def o_nanquantile_col(col, quant):
+    """np.nanquantile (linear) of one column over the extended reals: the order statistic itself where the position is an
+    integer, floor * (1 - frac) + ceil * frac by IEEE otherwise; None where that is inf - inf"""
+    srt = sorted(v for v in col if not np.isnan(v))
+    if not srt:
+        return None
+    pos = (len(srt) - 1) * Fraction(quant)
+    lo = pos.numerator // pos.denominator
+    if pos == lo:
+        return srt[lo]
+    a, b = srt[lo], srt[lo + 1]
+    if np.isinf(a) or np.isinf(b):
+        return None if (np.isinf(a) and np.isinf(b) and a != b) else (a if np.isinf(a) else b)
+    return Fraction(a) + (Fraction(b) - Fraction(a)) * (pos - lo)
+
+
+def infinite_quantile_case(ctx, M, rng):
+    """bootstrap values may be infinite (an infinite observation under max / min / quantile): only NaN is missing in `_nanquantile`"""
+    r, c = rng.randint(2, 6), rng.randint(1, 3)
+    mat = [[NAN if rng.random() < 0.2 else float(Fraction(rng.randint(-8, 8), 2)) for _ in range(c)] for _ in range(r)]
+    for _ in range(rng.randint(1, 3)):
+        mat[rng.randrange(r)][rng.randrange(c)] = rng.choice([INF, -INF])
+    quant = rng.choice([Fraction(1, 4), Fraction(1, 2), Fraction(1, 20), Fraction(19, 20), Fraction(1, 8), Fraction(7, 8), Fraction(1, 3)])
+    with np.errstate(invalid="ignore"):
+        got = M._nanquantile(np.array(mat, dtype=float), float(quant))
+    case = {"fn": "_nanquantile", "arr": mat, "quant": quant}
+    ctx.case(case)
+    ctx.count("nanquantile:infinite-values")
+    for j in range(c):
+        want = o_nanquantile_col([row[j] for row in mat], quant)
+        if want is not None and not core.close(got[j], want):
+            ctx.violation("_nanquantile differs from the linear-interpolation quantile of the non-NaN values when a value is infinite "
+                          "(an infinite value is counted as missing but still sorted into the column)", dict(case, column=j), str(want), float(got[j]),
+                          finding_key=FINDING_NQ)
+            return
 
 
 def quantile_case(ctx, M, rng):
@@ -1172,6 +1215,10 @@ def run(ctx):
         if not ctx.time_left():
             break
         quantile_case(ctx, M, rng)
+    for _ in range(ctx.n(60, 2000)):
+        if not ctx.time_left():
+            break
+        infinite_quantile_case(ctx, M, rng)
     for _ in range(ctx.n(300, 8000)):
         if not ctx.time_left():
             break
